@@ -1,17 +1,60 @@
 SPEC = {
     'module': 'EV.Props.C11',
-    'theorems': ['EV.HeaderCache.C11_header_inv', 'EV.HeaderCache.C11_header_proof', 'EV.HeaderCache.inv_step',
+    'theorems': ['EV.HeaderCache.C11_header_safe', 'EV.HeaderCache.C11_header_current',
+                 'EV.HeaderCache.C11_header_inv', 'EV.HeaderCache.ref_window', 'EV.HeaderCache.C11_header_proof',
+                 'EV.HeaderCache.C11_header_refused', 'EV.HeaderCache.C11_header_never_wrong',
+                 'EV.HeaderCache.seen_sound', 'EV.HeaderCache.inv_step', 'EV.HeaderCache.deliver_ok',
+                 'EV.HeaderCache.s9_init',
+                 'EV.HeaderCache.F17_counterexample', 'EV.HeaderCache.F18_counterexample',
+                 'EV.HeaderCache.F19_counterexample',
                  'EV.Merkle.bar_root', 'EV.Merkle.bar_fold', 'EV.Merkle.tsc_spec', 'EV.Merkle.cache_correct'],
     'suites': ['headercache', 'system'],
     'entry': {'system': 'run_proofs'},
     'design_ref': 'DESIGN.md §6 C11',
     'assumptions': [
-        'one extension of the header cache in flight at a time in the Lean model (concurrent extensions are exercised by the suites only)',
-        'the header merkle root field of a block is the merkle root of its txids (validity of the daemon\'s blocks); block hashes are SHA-256d of the headers (not modelled)',
-        'asyncio delivers a worker thread\'s result only at an await; MerkleCache.truncate runs in the worker thread of the back-out (thread-safety at bytecode granularity is not modelled)',
-        'requests overlapping a back-out may be answered for the chain held at some instant of the request, or fail with an error; only quiescent-state answers are judged',
+        'atomicity granularity of the header-proof model: event-loop code between two awaits is atomic; a worker-thread '
+        'read (DB.read_headers) is one atomic step that sees DB.state.height as it is then; DB.flush_backup is cut into '
+        'its two effects on readers (DB.state lowered, header_mc.truncate) with arbitrary event-loop steps and reads in '
+        'between.  Bytecode-level thread preemption INSIDE MerkleCache.truncate (truncations += 1 / self.length = / '
+        'del self.level[...] run in the worker thread while the event loop thread may run coroutine code between those '
+        'statements) and inside read_headers (state.height sampled, file read later) is not modelled',
+        'the header cache has been initialised consistently with the visible chain (MerkleCache.initialize finished; C12 '
+        'cache_init) before the first modelled event; initialize() running concurrently with a back-out below its '
+        'length (deeper than REORG_LIMIT) is outside the model',
+        'new blocks become visible to readers atomically and only when no back-out is half done: flush_dbs writes the '
+        'headers before it raises DB.state, and the block processor awaits each flush job (read off the source; the '
+        'suite emulates append in that order, it does not run flush_dbs)',
+        'header proofs are always requested with tsc_format=False (DB.header_branch_and_root); cp_height/height are '
+        'non-negative ints (session argument validation, C16)',
+        'the header merkle root field of a block is the merkle root of its txids (validity of the daemon\'s blocks); '
+        'block hashes are SHA-256d of the headers (not modelled); which tx-hash list a transaction proof folds is '
+        'validated by suite system, not proved',
     ],
-    'level_text': 'proof (partial): the header merkle cache is proved consistent with the DB\'s block hashes in every state reachable by any interleaving of extension start / worker read / extension finish / back-out with truncate / new blocks (the protocol of the repaired _extend_to), and a header proof answered through it is proved to be the from-scratch branch and Bitcoin merkle root of the current first cp+1 block hashes (composition with C12, whose theorems cover classic and TSC branches, direct and cached paths).  Which tx-hash list a transaction proof folds (tx table + by-height cache clearing) and the cutting of the coroutines into atomic steps are validated by the suites: the real MerkleCache under all interleavings up to a bound, and the real server with every proof of every block folded by an independent verifier after every phase of every generated history (incl. the F7 interleaving).',
-    'level_note': 'trusted: Lean kernel + 3 axioms; model/code tie by suites headercache (exhaustive interleavings on the real MerkleCache) and system (real server stack under a seeded virtual-time scheduler)',
-    'technique': 'Lean 4 inductive invariant over an interleaving transition system + composition with the C12 theorems + differential correspondence / end-to-end oracle',
+    'level_text': 'proof (header-proof part complete, transaction-proof part validated): the Lean model has ANY NUMBER of '
+                  'concurrent block.header(height, cp) requests, each a program counter over every await of '
+                  'MerkleCache.branch_and_root/_extend_to/_level_for with each read cut into issue / worker-thread '
+                  'perform against the hashes visible then / deliver, back-outs cut into their two effects in the order '
+                  'of DB.flush_backup, and new blocks.  Proved for all event sequences (unbounded, by an inductive '
+                  'invariant): every answer is the from-scratch branch and Bitcoin merkle root of the first cp+1 hashes '
+                  'of a chain that was visible at some moment between the request\'s start and its answer and that '
+                  'reaches the checkpoint (linearizability; C11_header_safe, seen_sound), it is the chain visible at the '
+                  'answer when no back-out overlapped the request (C11_header_current), the cache is consistent with the '
+                  'visible chain whenever no back-out is half done and with the pre-back-out chain in the window '
+                  '(C11_header_inv), out-of-range requests are refused and no request ends in a wrong answer '
+                  '(C11_header_refused, C11_header_never_wrong).  The three defects of the pinned code are machine-checked '
+                  'counterexamples under the respective variant flag (F17 concurrent extensions, F18 truncate before the '
+                  'state is lowered, F19 truncation between _extend_to and _level_for), replayed on the real code by the '
+                  'suite corpus.  Composition with C12 gives fold/length/TSC.  The cutting into atomic steps and the '
+                  'literalness of the model are validated by suite headercache: the real _merkle_proof / '
+                  'header_branch_and_root / MerkleCache / fs_block_hashes / read_headers coroutines and the real '
+                  'flush_backup (second thread, held between its two effects; order measured from the source and fed to '
+                  'the model) against the model after every event, exhaustively per scope up to 7..13 events plus seeded '
+                  'schedules, with an independent plain-Python oracle for the safety clause.  Transaction proofs: suite '
+                  'system (real server, every proof of every block folded by an independent verifier after every phase of '
+                  'every generated history).',
+    'level_note': 'trusted: Lean kernel + 3 axioms; model/code tie by suites headercache (real coroutines stepped read by '
+                  'read, real flush_backup thread) and system (real server stack under a seeded virtual-time scheduler)',
+    'technique': 'Lean 4 inductive invariant over an interleaving transition system with unboundedly many request '
+                 'program counters and a ghost history (linearizability) + composition with the C12 theorems + '
+                 'differential correspondence / independent oracle',
 }
